@@ -1051,7 +1051,7 @@ func pathCond(tb *TermBuilder, head, b *ssa.BasicBlock) *Cond {
 			return &Cond{Op: "false"} // back edge
 		}
 		// a join that post-dominates its immediate dominator executes under the same condition
-		if d := x.Idom(); d != nil && head.Dominates(d) && pdom[d][x] {
+		if d := x.Idom(); d != nil && head.Dominates(d) && pdom[d][x] && enclosingLoopHeader(d) == enclosingLoopHeader(x) {
 			r := pc(d)
 			memo[x] = r
 			return r
